@@ -68,6 +68,7 @@ def _cargo_env(outdir, target, only):
     env['CARGO_TARGET_DIR'] = target
     env['CARGO_NET_OFFLINE'] = 'true'
     env['CARGO_TERM_COLOR'] = 'never'
+    env['CARGO_INCREMENTAL'] = '0'  # local crates are rebuilt on every extraction; incremental state would only pile up
     return env
 
 
@@ -77,6 +78,29 @@ def _forget_local(target):
         for d in os.listdir(prof):
             if d.startswith(('cachelito', 'fx_', 'selftest', 'witness')):
                 shutil.rmtree(os.path.join(prof, d), ignore_errors=True)
+    # the artefacts of the local crates are rebuilt on every extraction anyway; without this the shared target directory grows
+    # by one set per analysed tree (scratch copies of /repo have their own package ids)
+    LOCAL = ('libcachelito', 'cachelito', 'libfx_', 'fx_', 'libselftest', 'selftest', 'libwitness', 'witness', 'w_')
+    try:
+        from . import gen_witness
+        wn = tuple(c[0] for c in gen_witness.CASES)
+        LOCAL = LOCAL + wn + tuple('lib' + x for x in wn)
+    except Exception:
+        pass
+    for deps in glob.glob(os.path.join(target, '*', 'deps')) + glob.glob(os.path.join(target, '*', 'incremental')):
+        try:
+            for f in os.listdir(deps):
+                if f.startswith(LOCAL):
+                    pth = os.path.join(deps, f)
+                    if os.path.isdir(pth):
+                        shutil.rmtree(pth, ignore_errors=True)
+                    else:
+                        try:
+                            os.remove(pth)
+                        except OSError:
+                            pass
+        except OSError:
+            pass
 
 
 def build_workspace(ws, tier):
